@@ -225,6 +225,9 @@ func (s *SignedAccumulator) UnmarshalVerify(pk *gabikeys.PublicKey) (*Accumulato
 	if pk.Counter != s.PKCounter {
 		return nil, errors.New("wrong public key")
 	}
+	if pk.ECDSA == nil {
+		return nil, errors.New("public key does not support revocation")
+	}
 	if err := signed.UnmarshalVerify(pk.ECDSA, s.Data, msg); err != nil {
 		return nil, err
 	}
